@@ -223,6 +223,14 @@ func (e *bEngine) applyHavocs(st *bState, con *Contract, bind map[string]bVal, p
 	}
 	// setlen <pointer param>.<slice field> = <expr>: the callee re-slices / grows a slice field of its receiver
 	for _, s := range con.Raw["setlen"] {
+		// setlen x.f = n ; zero : the elements the slice GAINS are polynomials holding the zero element
+		zeroNew := false
+		if i := strings.Index(s, ";"); i >= 0 {
+			if strings.TrimSpace(s[i+1:]) != "zero" {
+				panic(verr("%s: setlen: unknown option %q", con.File, s[i+1:]))
+			}
+			zeroNew, s = true, s[:i]
+		}
 		kv := strings.SplitN(s, "=", 2)
 		if len(kv) != 2 {
 			panic(verr("%s: setlen expects: x.f = expr", con.File))
@@ -257,8 +265,18 @@ func (e *bEngine) applyHavocs(st *bState, con *Contract, bind map[string]bVal, p
 			}
 			cur = bSlice{arr: st.nextID}
 		}
+		oldLen := st.norm(cur.len)
 		cur.len, cur.cap = n, nil
 		e.storeAt(st, fp, cur)
+		if nl := st.norm(n); zeroNew && oldLen != nil && oldLen.IsConst() && nl.IsConst() && nl.Val.IsInt64() && oldLen.Val.IsInt64() {
+			for i := oldLen.Val.Int64(); i < nl.Val.Int64(); i++ {
+				pv := e.loadAt(st, bPtr{obj: cur.arr, path: fmt.Sprintf("/[%d]", i)})
+				if id, ok := e.polyID(st, pv); ok {
+					st.ghost["val"] = Store(e.ghostArr(st, "val"), ConstI(int64(id)), ConstI(0))
+					st.ghost["ntt"] = Store(e.ghostArr(st, "ntt"), ConstI(int64(id)), ConstI(2))
+				}
+			}
+		}
 	}
 	for _, s := range con.Raw["gset"] {
 		kv := strings.SplitN(s, "=", 2)
